@@ -1225,6 +1225,11 @@ class Interp:
         if type(base).__name__ == 'SymList':
             from . import heap as H
             if isinstance(slc, ast.Slice):
+                if slc.lower is None and slc.upper is None and slc.step is None:
+                    if base.heap is not None:
+                        raise Unsupported('del on a snapshot')
+                    base.length = z3.IntVal(0)  # del L[:]
+                    return
                 raise Unsupported('del of a slice of a symbolic list')
             return H.lst_delete(self, base, self.eval(slc, fr))
         if isinstance(base, SList):
@@ -1780,6 +1785,9 @@ class Interp:
             base = self.unwrap(base, TypeError)
         if type(base).__name__ == 'SymList':
             from . import heap as H
+            if lo is None and hi is None:
+                # L[:] is a COPY (later mutation of L must not show through): the array term is a value, so the copy is free
+                return H.SymList(base.elems, base.length, base.schema, base.heap)
             return H.lst_slice(self, base, lo, hi)
         if isinstance(lo, Opt) or isinstance(hi, Opt):
             raise Unsupported('optional slice bound')
